@@ -181,15 +181,20 @@ EncZero ==
     /\ todo' = Rest
     /\ UNCHANGED <<phase, svars, frames, walk, k, gend>>
 
-EncScalar ==
+\* a scalar with a given payload (little-endian byte tuple)
+EncScalarV(bytes) ==
     /\ phase = "enc" /\ todo # <<>> /\ Top.op = "val" /\ IsScalarRef(env, Top.t)
-    /\ LET w == Base(env, Top.t).w
-           bytes == Payload(k, w)
-       IN /\ Emit(bytes, IF Base(env, Top.t).k = "byte" THEN "b" ELSE "s")
-          /\ walk' = Append(walk, Ev("int", 0, bytes))
+    /\ Len(bytes) = Base(env, Top.t).w
+    /\ Emit(bytes, IF Base(env, Top.t).k = "byte" THEN "b" ELSE "s")
+    /\ walk' = Append(walk, Ev("int", 0, bytes))
     /\ k' = k + 1
     /\ todo' = Rest
     /\ UNCHANGED <<phase, svars, frames, gend>>
+
+\* generative use: the q-th scalar carries the fixed pattern Payload(q, w)
+EncScalar ==
+    /\ phase = "enc" /\ todo # <<>> /\ Top.op = "val" /\ IsScalarRef(env, Top.t)
+    /\ EncScalarV(Payload(k, Base(env, Top.t).w))
 
 EncEnum(j) ==
     /\ phase = "enc" /\ todo # <<>> /\ Top.op = "val" /\ IsEnumRef(env, Top.t)
@@ -204,6 +209,16 @@ EncEnum(j) ==
 EncCounter(n) ==
     /\ phase = "enc" /\ todo # <<>> /\ Top.op = "cnt"
     /\ n \in 0..(IF Top.a > 0 THEN Min(Top.a, MaxLen) ELSE MaxLen)
+    /\ Emit(IntBytes(n, Top.n), "c")
+    /\ frames' = << [Head(frames) EXCEPT ![Top.m] = n] >> \o Tail(frames)
+    /\ walk' = Append(walk, Ev("len", n, <<>>))
+    /\ todo' = Rest
+    /\ UNCHANGED <<phase, svars, k, gend>>
+
+\* trace validation: the recorded length may exceed the exploration bound MaxLen
+EncCounterAny(n) ==
+    /\ phase = "enc" /\ todo # <<>> /\ Top.op = "cnt"
+    /\ (Top.a > 0 => n <= Top.a)
     /\ Emit(IntBytes(n, Top.n), "c")
     /\ frames' = << [Head(frames) EXCEPT ![Top.m] = n] >> \o Tail(frames)
     /\ walk' = Append(walk, Ev("len", n, <<>>))
@@ -225,6 +240,12 @@ EncArray ==
 EncGreedy(n) ==
     /\ phase = "enc" /\ todo # <<>> /\ Top.op = "gre"
     /\ n \in 0..MaxLen
+    /\ todo' = Copies(n, ValTask(Top.t)) \o << Tk("gend", Byte, 0, 0, 0) >> \o Rest
+    /\ walk' = Append(walk, Ev("len", n, <<>>))
+    /\ UNCHANGED <<phase, svars, frames, outL, outB, role, k, gend>>
+
+EncGreedyAny(n) ==
+    /\ phase = "enc" /\ todo # <<>> /\ Top.op = "gre"
     /\ todo' = Copies(n, ValTask(Top.t)) \o << Tk("gend", Byte, 0, 0, 0) >> \o Rest
     /\ walk' = Append(walk, Ev("len", n, <<>>))
     /\ UNCHANGED <<phase, svars, frames, outL, outB, role, k, gend>>
